@@ -290,10 +290,52 @@ fn one_run_switch(run: u64, steps: u64, stream: u64) -> Vec<Value> {
     recs
 }
 
+/// a stable router mesh with the switch timeout different from the peer timeout: the claims of a connected peer stay
+/// in the table all the time (they are refreshed by every announcement and live for the peer timeout)
+fn one_run_steady(run: u64, stream: u64) -> Vec<Value> {
+    let mut rng = rng(stream);
+    let mut sim: Sim<Packet> = Sim::new(stream);
+    let n = 3usize;
+    let (pt, st) = [(300u32, 30u32), (300, 10), (130, 1000), (300, 3600)][(run % 4) as usize];
+    let mut decl: HashMap<(u16, u32), Vec<String>> = HashMap::new();
+    for i in 0..n {
+        let mut c = pick_claims(&mut rng);
+        if c.is_empty() {
+            c.push(UNIVERSE[i % 4].to_string());
+        }
+        decl.insert((i as u16 + 1, 0), c.clone());
+        let mut cfg = cfg_claims(&c);
+        cfg.peer_timeout = pt;
+        cfg.switch_timeout = st;
+        sim.add_node(false, &cfg);
+    }
+    for i in 1..n {
+        let a = sim.nodes[0].addr;
+        sim.connect(i, a);
+    }
+    sim.deliver_due();
+    let mut r = Run { sim, decl, recs: vec![], step: 0, run };
+    r.sim.run_for(3);
+    for k in 0..(2 * pt as i64 + 60) {
+        r.sim.tick();
+        if k % 7 == 0 {
+            r.traffic(&mut rng);
+            r.record("steady");
+        }
+    }
+    let panics = r.sim.total_panics();
+    r.recs.push(json!({"op":"c12end","run":run,"panics":panics,"full_mesh":r.sim.full_mesh()}));
+    r.recs
+}
+
 pub fn run(tier: &str, out_path: &str) -> Value {
     let (runs, steps) = if tier == "quick" { (24u64, 60u64) } else { (300, 120) };
     let ids: Vec<u64> = (0..runs).collect();
-    let results = parallel_map(&ids, |_, k| if *k % 3 == 2 { one_run_switch(*k + 1, steps, 12000 + *k) } else { one_run(*k + 1, steps, 12000 + *k) });
+    let results = parallel_map(&ids, |_, k| match *k % 6 {
+        2 | 5 => one_run_switch(*k + 1, steps, 12000 + *k),
+        3 => one_run_steady(*k + 1, 12000 + *k),
+        _ => one_run(*k + 1, steps, 12000 + *k),
+    });
     let mut t = Trace::create(out_path);
     for rs in &results {
         for r in rs {
